@@ -67,7 +67,7 @@ var avoid = []string{"C07-exclusive-bounds-as-numbers", "C07-uint32-documented-a
 func TestContract(t *testing.T) {
 	n := rt.EnvInt("VERIF_CHECKS", 24)
 	seed := rt.EnvInt("VERIF_SEED", 1)
-	sess, built := rt.Prepare(t, "c14", rt.Options{Profile: profile(), N: n, Seed: seed, AvoidIfOpen: avoid, Extra: []*m.Design{gen.ParamMatrix(), gen.ViewMatrix(), gen.MapParamsMatrix()}})
+	sess, built := rt.Prepare(t, "c14", rt.Options{Profile: profile(), N: n, Seed: seed, AvoidIfOpen: avoid, Extra: []*m.Design{gen.ParamMatrix(), gen.ViewMatrix(), gen.MapParamsMatrix(), gen.ValidationMatrix()}})
 	defer sess.Close()
 	defer rt.CloseAll(built)
 	if len(built) == 0 {
